@@ -32,6 +32,9 @@
 //     or a constructor (a function all of whose returns are such values) and not yet stored,
 //     sent, captured or passed to something that stores it; or a parameter of an unexported
 //     function all of whose call sites pass such a value.
+//   - memory reachable from shared fields (backing arrays, maps, pointees; references that
+//     leave the lock region they were loaded in): alias.go, which emits the `escapes` table,
+//     `externalUses`, `funcValueUses` and `astWriters` into the same file.
 package main
 
 import (
